@@ -557,8 +557,8 @@ func (x *runner) concurrent() {
 			for w := range jobs {
 				for i := 0; i < per; i++ {
 					pt := g.Bytes(g.Intn(maxLen + 1))
-					ct := make([]byte, len(pt))
-					seq.Encrypt(ct, pt)
+					ct := append([]byte(nil), pt...)
+					seq.Encrypt(ct, ct) // same layout as the concurrent calls: only concurrency differs
 					jobs[w] = append(jobs[w], job{pt, ct})
 				}
 			}
